@@ -12,7 +12,8 @@ META = {
         "{root,nested} x buffering mode with threading on: (a) the root load, every mutation of the tree and the save all execute while the ROOT's collection lock is held, in ONE "
         "continuous hold (no release followed by further load/mutate/save - composite mixin mutators built from several public calls fail this); (b) every collection lock acquired "
         "on behalf of a nested receiver is the root's (a nested node's own lock id is None: one lock shared by all nested nodes of all files); (c) the save replaces the file atomically "
-        "when threading is on. Each clause has a one-preemption counterexample when broken. Linearizability over all schedules is NOT decided."
+        "when threading is on; (a') building a nested child of the tree (which raises the tree-wide suspend counter in the child's constructor) counts as an event of the "
+        "critical section; (d) a writer tests the tree-wide suspend counter only under the collection lock. Each clause has a one-preemption counterexample when broken. Linearizability over all schedules is NOT decided."
     ),
     "rule": "contexts = thread-safe class x mutator x {root,nested} x mode with threading enabled; non-trivial = has a mutation; events = root load, mutation, save",
     "trusted_base": ["engine lock identity resolution (lock table key = owner's lock id)", "RLock semantics"],
@@ -127,6 +128,17 @@ def run_unit(A, unit, rep, tier):
                     rep.fail("C09.a", norm_key("C09.a", f.qualname, f"rho={rho}"),
                              f"mutator {f.qualname} ({rho} receiver) is not one critical section on the root's lock: {what}; a concurrent writer can interleave and an update is lost",
                              g.witness(w), g.label)
+                # (d) the tree-wide suspend counter is shared by all threads: a writer that tests it without the
+                #     collection lock may see it raised by a concurrent READ of the same tree and take the branch meant
+                #     for "inside a load" (skip validation / the load / the save)
+                tests = [n for n in live(g) if n.kind == "branch" and any(x.kind == "obj" and "_suspend_sync" in str(x.args[1]) and x.args[1][0] == "T" for x in n["cond"].walk())]
+                for n in tests:
+                    if all(want in held_ids(s) for s in st.get(n.id, [()])):
+                        rep.ok("C09.d")
+                    else:
+                        rep.fail("C09.d", norm_key("C09.d", n.func, "suspend-test"),
+                                 f"`{n.stmt}` in {n.func} (reached from the mutator {f.qualname}) tests the tree-wide suspend counter without holding the collection lock: a concurrent read of the same tree raises that "
+                                 "counter, so the writer takes the 'synchronisation suspended' branch by accident", g.witness(g.path(g.entry, [n.id])), g.label)
                 # (b) right lock for nested receivers
                 if rho == "nested":
                     wrong = [n for n in live(g) if n.kind == "lock" and n["op"] == "+" and lock_id(n["lock"]).startswith("col:nested")]
